@@ -346,6 +346,26 @@ class Ctx:
                             m1 = s3.model()
                             rec["candidate"] = True
                             rec["solver"] = "z3/qf+instances(fresh)"
+                        else:
+                            # last resort (additive: only reached when the verdict would have been UNDECIDED): the
+                            # same query without the array-extensionality axioms, which is what z3's model search
+                            # gets lost in on goals over several capacity-bounded maps.  Fewer axioms: unsat is
+                            # still a proof; sat is a candidate counterexample (reported REFUTED - never a pass)
+                            s4 = z3.Solver()
+                            s4.set("timeout", OB_TIMEOUT_MS)
+                            s4.set("rlimit", OB_RLIMIT)
+                            s4.set("smt.array.extensional", False)
+                            s4.add(*self.pc)
+                            s4.add(z3.Not(term))
+                            r4 = s4.check()
+                            if r4 == z3.unsat:
+                                r = z3.unsat
+                                rec["solver"] = "z3/qf+instances(fresh,no-ext)"
+                            elif r4 == z3.sat:
+                                r = z3.sat
+                                m1 = s4.model()
+                                rec["candidate"] = True
+                                rec["solver"] = "z3/qf+instances(fresh,no-ext)"
             if r == z3.sat and m1 is not None:
                 rec["model"] = self.describe_model(m1)
             rec["verdict"] = "PROVED" if r == z3.unsat else "REFUTED" if r == z3.sat else "UNDECIDED"
